@@ -19,10 +19,10 @@ GENERATORS = [translate_migrations.generate]
 THEOREMS = [
     "RedunModel.C36.chain_linear",
     "RedunModel.C36.chain_classified",
-    # "RedunModel.C36.structural_preserve",
-    # "RedunModel.C36.data_ops_preserve_partial",
-    # "RedunModel.C36.migrate_preserve_partial",
-    # "RedunModel.C36.refuted_subsecond",
+    "RedunModel.C36.structural_preserve",
+    "RedunModel.C36.data_ops_preserve_partial",
+    "RedunModel.C36.migrate_preserve_partial",
+    "RedunModel.C36.refuted_subsecond",
 ]
 TRUSTED = [
     "the translator harness/translate_migrations.py (Python ast -> list of guarded ops; raises on anything outside its grammar) and "
@@ -154,7 +154,7 @@ def ts(rng):
     return base + ".%06d" % (rng.randrange(1, 1000) * 1000)
 
 
-def populate(rng, path, version, size):
+def populate(rng, path, version, size, witness=False):
     """Insert generated rows with sqlite3 (only the columns that exist at this schema version)."""
     con = sqlite3.connect(path)
     info = table_info(con)
@@ -259,6 +259,9 @@ def populate(rng, path, version, size):
             ins("job", id=j, start_time=ts(rng), end_time=ts(rng) if ended else None, task_hash=rng.choice(tasks),
                 cached=rng.randrange(2), call_hash=rng.choice(calls) if ended else None, parent_id=parent,
                 execution_id=tree_exec_ids)
+    if witness:      # DESIGN F17: a job started at ...05.678901
+        ins("job", id="jF17", start_time="2024-01-02 03:04:05.678901", end_time=None, task_hash=tasks[0], cached=0, call_hash=None,
+            parent_id="j000", execution_id=("x000" if has_exec_col else None))
     tags = ["T%02d" % i for i in range(n(0, 2 * size))]
     for t in tags:
         ins("tag", tag_hash=t, entity_type=rng.choice(["Execution", "Job", "CallNode", "Task", "Value", "Null"]),
@@ -327,8 +330,13 @@ def canon_after(before, after):
     return after
 
 
+F17 = "C36-job-timestamp-subsecond-truncated"
+
+
 def oracle(ctx, case, before, after):
-    """The property on the real databases: every old row is still there (by primary key), shared columns equal."""
+    """The property on the real databases: every old row is still there (by primary key), shared columns equal.
+    Returns the set of violation signatures seen."""
+    found = set()
     for t, b in before.items():
         if t not in after:
             continue
@@ -344,6 +352,7 @@ def oracle(ctx, case, before, after):
             key = tuple(r[bi[c]] for c in pk)
             r2 = index.get(key)
             if r2 is None:
+                found.add("C36-row-lost-%s" % t)
                 ctx.violation("C36-row-lost-%s" % t, "a row of table %s is gone after the upgrade" % t,
                               dict(case, table=t, key=list(key)), expected="row kept", actual="missing", kind="history")
                 continue
@@ -357,15 +366,18 @@ def oracle(ctx, case, before, after):
                 if t == "job" and c == "execution_id" and x == "N":
                     continue                      # backfill of a NULL (ASSUMPTIONS)
                 if t == "job" and c in ("start_time", "end_time") and ix and iy and ix[0] == iy[0] and iy[1] == "000000000":
-                    ctx.violation("C36-job-timestamp-subsecond-truncated",
+                    found.add(F17)
+                    ctx.violation(F17,
                                   "upgrading from a schema <= 3.3 drops the fractional seconds of job.start_time/end_time "
                                   "(sqlite migration 3b0a6e67cc58: datetime(x,'utc'))",
                                   dict(case, table=t, column=c, key=list(key), before=bytes.fromhex(x.split()[1][1:]).decode() +
                                        bytes.fromhex(x.split()[2][1:-1]).decode()),
                                   expected=ix, actual=iy, kind="history")
                     continue
+                found.add("C36-value-changed-%s.%s" % (t, c))
                 ctx.violation("C36-value-changed-%s.%s" % (t, c), "column %s.%s changed during the upgrade" % (t, c),
                               dict(case, table=t, column=c, key=list(key)), expected=x, actual=y, kind="history")
+    return found
 
 
 def correspond(ctx, case, reply, before, after):
@@ -430,15 +442,16 @@ def use_for_caching(ctx, case, path):
     return ok
 
 
-def one_case(ctx, tmp, templates, version, seed, size, n):
+def one_case(ctx, tmp, templates, version, seed, size, n, witness=False):
     import random
     from redun.backends.db import RedunBackendDb
     path = os.path.join(tmp, "case%d.db" % n)
     shutil.copy(templates[(version.major, version.minor)], path)
     rng = random.Random(seed)
-    counts = populate(rng, path, version, size)
+    counts = populate(rng, path, version, size, witness)
     before = snapshot(path)
-    case = dict(version="%d.%d" % (version.major, version.minor), start_revision=version.migration_id, populate_seed=seed, size=size)
+    case = dict(version="%d.%d" % (version.major, version.minor), start_revision=version.migration_id, populate_seed=seed, size=size,
+                witness=witness)
     b = RedunBackendDb(db_uri="sqlite:///" + path)
     err = None
     try:
@@ -456,7 +469,7 @@ def one_case(ctx, tmp, templates, version, seed, size, n):
     line = request_line(version.migration_id, before)
     res = dict(case=case, before=before, after=after, err=err, line=line, counts=counts, path=path)
     if err is None:
-        oracle(ctx, case, before, after)
+        res["found"] = oracle(ctx, case, before, after)
         res["usable"] = use_for_caching(ctx, case, path)
     else:
         ctx.violation("C36-upgrade-fails", "RedunBackendDb.migrate() raises on a populated database", case, expected="upgrade",
@@ -490,19 +503,27 @@ def run(ctx, only=None):
         versions = RedunBackendDb.get_all_db_versions()
         plan = []
         if only:
-            plan = [only]
+            plan = [only[:3]]
         else:
             # corpus: DESIGN F17 (3.3, fractional seconds) and an empty database per version
             for v in versions:
                 plan.append((v, 36000 + v.major * 10 + v.minor, 1))
             plan.append((versions[0], 1, 0))
-            per = ctx.n(1, 20)
+            per = ctx.n(3, 22)
             for v in versions:
                 for _ in range(per):
                     plan.append((v, ctx.rng.randrange(10 ** 9), ctx.rng.choice([1, 2, 3])))
         results = []
+        if not only:
+            # the witness of the refuted theorem, replayed on the real code (schema 3.3 -> latest)
+            v33 = [v for v in versions if (v.major, v.minor) == (3, 3)]
+            if v33:
+                r = one_case(ctx, tmp, templates, v33[0], 17, 1, 9999, witness=True)
+                results.append(r)
+                if F17 not in r.get("found", set()):
+                    ctx.expect_known(F17, False, r["case"], "the 3.3 -> latest upgrade keeps fractional seconds")
         for i, (v, seed, size) in enumerate(plan):
-            results.append(one_case(ctx, tmp, templates, v, seed, size, i))
+            results.append(one_case(ctx, tmp, templates, v, seed, size, i, witness=bool(only and only[3:] and only[3])))
         replies = ctx.model("C36", [r["line"] for r in results])
         for r, reply in zip(results, replies):
             if r["err"] is None:
@@ -529,4 +550,4 @@ def replay(ctx, case):
     v = [x for x in RedunBackendDb.get_all_db_versions() if "%d.%d" % (x.major, x.minor) == c["version"]][0]
     print("replay: schema %s, populate seed %s, size %s -> upgrade to latest" % (c["version"], c["populate_seed"], c["size"]))
     print("  in question:", {k: c[k] for k in ("table", "column", "key", "before") if k in c})
-    run(ctx, only=(v, c["populate_seed"], c["size"]))
+    run(ctx, only=(v, c["populate_seed"], c["size"], bool(c.get("witness"))))
